@@ -77,7 +77,7 @@ Print Assumptions C05_strict_partial_mixins.
 Theorem C05_object_strict :
   forall C S frs fuel g gs nested pub cn tn sels at_ tv out pub' cs kv n,
     parse_type_def fuel C S frs pub cn tn sels at_ [] tv = Ok (out, pub', false) ->
-    sels_ok g true C S frs nested tn tn sels = true -> sels_strict gs C S frs nested tn sels = true ->
+    sels_ok g true C S frs at_ tn tn sels = true -> sels_strict gs C S frs nested tn sels = true ->
     (at_ = true -> has_typename sels = true) ->
     tv = (if nested then Some [tn] else None) -> table_ok cs out ->
     accepts n cs (schema_enums S) (AClass cn) (JObj kv) = true ->
